@@ -163,6 +163,30 @@ def FoldDt.tzname (d : FoldDt) : Option Token := if d.fold = 0 then d.n0 else d.
 /-- `tz.enfold(dt, fold=k)` -/
 def FoldDt.enfold (d : FoldDt) (k : Nat) : FoldDt := { d with fold := k }
 
+/-! ### `parserinfo.__init__` -/
+
+/-- the class attributes of a `parserinfo` (sub)class: word lists as groups (a plain word = a group of one) -/
+structure InfoTables where
+  JUMP : List (List String)
+  WEEKDAYS : List (List String)
+  MONTHS : List (List String)
+  HMS : List (List String)
+  AMPM : List (List String)
+  UTCZONE : List (List String)
+  PERTAIN : List (List String)
+  TZOFFSET : List (Token × Int)
+  deriving Repr, Inhabited
+
+/-- what an instance sees before `__init__` has run: the class attributes `UTCZONE` (as written) and `TZOFFSET` -/
+def infoOfClass (t : InfoTables) : Info :=
+  { jump := [], weekdays := [], months := [], hms := [], ampm := [], utczoneKeys := [], pertain := [],
+    UTCZONE := t.UTCZONE.flatten.map tk, tzoffsets := t.TZOFFSET, dayfirst := false, yearfirst := false, year := 0, century := 0 }
+
+/-- the stock class -/
+def stockTables : InfoTables :=
+  { JUMP := Gen.PI_JUMP.map ([·]), WEEKDAYS := Gen.PI_WEEKDAYS, MONTHS := Gen.PI_MONTHS, HMS := Gen.PI_HMS, AMPM := Gen.PI_AMPM,
+    UTCZONE := Gen.PI_UTCZONE.map ([·]), PERTAIN := Gen.PI_PERTAIN.map ([·]), TZOFFSET := [] }
+
 /-! ### the datetime `parser.parse` returns, as far as the model speaks about it -/
 
 /-- wall time + what its `tzinfo` is -/
